@@ -444,6 +444,11 @@ impl Allocator for Arena {
     #[cfg(feature = "tracing")]
     tracing::debug!("discard {size} bytes");
 
+    // the header of a read-only arena lives in a read-only mapping
+    if self.ro {
+      return;
+    }
+
     self.header_mut().discarded += size;
   }
 
@@ -459,6 +464,11 @@ impl Allocator for Arena {
 
   #[inline]
   fn set_minimum_segment_size(&self, size: u32) {
+    // the header of a read-only arena lives in a read-only mapping
+    if self.ro {
+      return;
+    }
+
     self.header_mut().min_segment_size = size;
   }
 
